@@ -16,13 +16,22 @@ All theorems: ∀ sizes, ∀ indices, ∀ bit lists, ∀ tables of tokens. Model
 all executed against the code by the C19 correspondence check (`harness/c19.py`, ops `c19.*`).
 Specification side: `Nat.testBit`, Mathlib `∑`, `finProdFinEquiv` (the row-major flattening of a
 Kronecker product), `List.Sublist`, `List.finRange`-indexed filters, the table printer `printTable`, and the
-writer-side predicates `GoodTok` / `GoodRow` / `BigTable` (`QV/Lemmas/DataLoad.lean`).
+writer-side predicates `GoodTok` / `GoodRow` / `RectTable` (any `N ≥ 0`, `n ≥ 1`) / `BigTable` (targets only)
+(`QV/Lemmas/DataLoad.lean`).
+
+Gap round: the loaders are modelled AFTER the proposed fix F16 (`proposed/F16_loadtxt_ndmin.diff`: samples and
+per-sample bases read with `ndmin=2`), so the round-trip theorems hold for one-sample and one-site files too;
+`C19_position_k(_states)` name the "position k of every array the library produces" clause on the generated space
+(`overSpace`, `overSpace2`, executed by driver op `c19.arrays`); `QV.Model.HilbertInt` gives the int64 outcome
+classes for arguments outside the documented domain (`C19_subspace_int64`, `C19_size_guard_int`).
 -/
 import Mathlib.Algebra.BigOperators.Fin
 import Mathlib.Logic.Equiv.Fin.Basic
 import QV.Lemmas.Hilbert
 import QV.Lemmas.DataLoad
 import QV.Model.Unitaries
+import QV.Model.Density
+import QV.Lemmas.HilbertInt
 
 namespace QV.Props
 namespace C19
@@ -220,6 +229,73 @@ theorem C19_kron_stage_bit (n idx : ℕ) (s : Fin n) :
   simp only [spaceBit, Nat.testBit_eq_decide_div_mod_eq]
   cases h : decide (idx / 2 ^ (n - 1 - s.val) % 2 = 1) <;> simp_all
 
+/-- **C19.6d** position `k` of the arrays the library PRODUCES from the generated space: for a row-wise function
+`f` (`psi`, `amplitude`, `probability`) entry `k` of `f(space)` is `f` at the big-endian expansion of `k`
+(`spaceRow n k`, the vector the state models of C01/C02/C04/C10 are stated on); for a pair function `g` with
+`expand=True` (`rho(space, space)`, `pi`, `gamma`) entry `[k][l]` is `g(row k, row l)` — row index from the first
+argument, column index from the second; and the single vector `subspace_vector(k)` denotes the same state.
+The space is the list the model of `generate_hilbert_space` computes (masks, reversal). A dropped reversal,
+a transposed `expand`, or an enumeration in another order falsifies this. -/
+theorem C19_position_k {α β γ : Type} [Zero α] [One α] (n : ℕ) (rows : List (List Bool))
+    (h : generateHilbertSpace none n = .ok rows) (f : (Fin n → α) → β) (g : (Fin n → α) → (Fin n → α) → γ)
+    (k l : ℕ) (hk : k < 2 ^ n) (hl : l < 2 ^ n) :
+    (overSpace n f rows)[k]? = some (f (spaceRow n k)) ∧
+    ((overSpace2 n g rows)[k]?.bind (fun r => r[l]?)) = some (g (spaceRow n k) (spaceRow n l)) ∧
+    (rowVec n (subspaceVector k none n) : Fin n → α) = spaceRow n k := by
+  have he : effSize none n = n := rfl
+  simp only [generateHilbertSpace] at h
+  cases hg : spaceGuard none n with
+  | error e => rw [hg] at h; cases h
+  | ok s =>
+    rw [hg] at h
+    have hs : s = n := by
+      rw [spaceGuard_eq] at hg; split at hg <;> cases hg; rfl
+    subst hs
+    cases h
+    refine ⟨?_, ?_, ?_⟩
+    · simp [overSpace, List.getElem?_map, List.getElem?_range hk, rowVec_maskRow]
+    · simp [overSpace2, List.getElem?_map, List.getElem?_range hk, List.getElem?_range hl, rowVec_maskRow]
+    · simp only [subspaceVector, he, rowVec_maskRow]
+
+/-- **C19.6e** the instance the property names: `rho(space, space)[k][l]` computed over the generated space is the
+entry `Density.rhoFull am ph k l` that C02's theorems (Hermitian, PSD, trace) are about, and `psi(space)[k]` is the
+wavefunction at row `k`. -/
+theorem C19_position_k_states {α : Type} [Add α] [Mul α] [Neg α] [Sub α] [Div α] [Zero α] [One α] [Transc α]
+    {n h a : ℕ} (rows : List (List Bool)) (hr : generateHilbertSpace none n = .ok rows)
+    (am ph : PRBM α n h a) (wam wph : RBM α n h) (k l : Fin (2 ^ n)) :
+    ((overSpace2 n (Density.rho am ph) rows)[k.val]?.bind (fun r => r[l.val]?)) = some (Density.rhoFull am ph k l) ∧
+    (overSpace n (Wave.psiCplx wam wph) rows)[k.val]? = some (Wave.psiCplx wam wph (spaceRow n k.val)) ∧
+    (overSpace n (Wave.psiPos wam) rows)[k.val]? = some (Wave.psiPos wam (spaceRow n k.val)) ∧
+    (overSpace n (fun v => Wave.probability wam v 1) rows)[k.val]? = some (Wave.probability wam (spaceRow n k.val) 1) :=
+  ⟨(C19_position_k n rows hr (fun _ => ()) (Density.rho am ph) k.val l.val k.isLt l.isLt).2.1,
+   (C19_position_k n rows hr (Wave.psiCplx wam wph) (fun _ _ => ()) k.val k.val k.isLt k.isLt).1,
+   (C19_position_k n rows hr (Wave.psiPos wam) (fun _ _ => ()) k.val k.val k.isLt k.isLt).1,
+   (C19_position_k n rows hr (fun v => Wave.probability wam v 1) (fun _ _ => ()) k.val k.val k.isLt k.isLt).1⟩
+
+/-! ### arguments outside the documented domain, as outcome classes (`QV.Model.HilbertInt`) -/
+
+/-- **C19.5c** `generate_hilbert_space` with a Python-int size: on non-negative sizes the int64 model IS the `Nat`
+model (`C19_size_guard` applies); a negative size is never answered with a space — it is refused (`TypeError`). -/
+theorem C19_size_guard_int (nv : ℕ) :
+    (∀ size : Option ℕ, spaceGuardZ (size.map Int.ofNat) nv = spaceGuard size nv) ∧
+    (∀ s : ℤ, s < 0 → spaceGuardZ (some s) nv = .error .TypeError) :=
+  ⟨fun size => spaceGuardZ_nat nv size, fun s hs => spaceGuardZ_neg nv s hs⟩
+
+/-- **C19.2c** `subspace_vector` in int64 arithmetic: an index that does not fit a C long is refused
+(`OverflowError`); for EVERY index `0 ≤ num < 2^63` and EVERY size `s ≥ 0` — also `s > 62`, where `1 << i` wraps
+around — the result is the `s`-bit big-endian expansion of `num` (the `Nat` model `subspaceVector`, hence
+`C19_subspace_is_binary_expansion`); a negative size gives the empty vector. (Negative indices are read in two's
+complement, `intBit`; they are outside the property.) -/
+theorem C19_subspace_int64 (nv : ℕ) :
+    (∀ (num : ℤ) (size : Option ℤ), (num < -(2 ^ 63) ∨ 2 ^ 63 ≤ num) →
+        subspaceVectorZ num size nv = .overflowError) ∧
+    (∀ (m : ℕ) (size : Option ℕ), m < 2 ^ 63 →
+        subspaceVectorZ (m : ℤ) (size.map Int.ofNat) nv = .ok (subspaceVector m size nv)) ∧
+    (∀ (m : ℕ) (s : ℤ), m < 2 ^ 63 → s < 0 → subspaceVectorZ (m : ℤ) (some s) nv = .ok []) :=
+  ⟨fun num size h => subspaceVectorZ_overflow nv num size h,
+   fun m size hm => subspaceVectorZ_nat nv m size hm,
+   fun m s hm hs => subspaceVectorZ_negsize nv m s hm hs⟩
+
 /-! ## Part 2 — data files -/
 
 /-- **C19.7a** reading back a printed table gives exactly the token rows, in order (any number of rows
@@ -297,28 +373,71 @@ theorem C19_numeric_table_bad_token {ν : Type} (parse : Token → Option ν) (r
     loadtxtNum parse round (printTable rows) = .error .ValueError := by
   rw [loadtxtNum, tokenize_printTable rows h, convertRows_bad parse round rows hbad]
 
-/-- **C19.8b** `load_data` on printed files (`N, m ≥ 2` everywhere): the outputs are, in this order,
-the samples (rounded values, same layout), then — only if given — the target as the `2 × N` real-pair
-layout (row 0 = first column, row 1 = second column of the psi file), the per-sample bases, the list of
-bases; nothing else. -/
+/-- **C19.7f** (F16) `np.loadtxt(dtype=str, ndmin=2)` — the `tr_bases_path` call — of ANY printed rectangular
+table, `N ≥ 0` rows and `m ≥ 1` columns, is the 2-D array of the tokens: one-row and one-column files keep
+their shapes `(1, m)` / `(N, 1)`. (A squeezing read — the call without `ndmin=2` — falsifies this for `N = 1`
+and for `m = 1`, see `C19_table_squeezed`.) -/
+theorem C19_table_ndmin2 (rows : List (List Token)) (m : ℕ) (h : RectTable rows m) :
+    loadtxtStr2 (printTable rows) = .ok (.mat rows) ∧
+    (rows ≠ [] → (Arr.mat rows).shape = [rows.length, m]) := by
+  refine ⟨loadtxtStr2_rect rows m h, fun hne => ?_⟩
+  cases rows with
+  | nil => exact absurd rfl hne
+  | cons r rs => simp [Arr.shape, h.2 r (by simp)]
+
+/-- **C19.7g** the numeric counterpart (the samples call): every token parsed and rounded once, layout and
+shape `(N, m)` kept for every `N ≥ 0`, `m ≥ 1`; ragged tables and unparsable tokens are `ValueError`s. -/
+theorem C19_numeric_table_ndmin2 {ν : Type} (parse : Token → Option ν) (round : ν → ν) (val : Token → ν)
+    (rows : List (List Token)) (m : ℕ) (h : RectTable rows m) :
+    ((∀ r ∈ rows, ∀ t ∈ r, parse t = some (val t)) →
+      loadtxtNum2 parse round (printTable rows)
+        = .ok (.mat (rows.map (fun r => r.map (fun t => round (val t)))))) ∧
+    ((∃ r ∈ rows, ∃ t ∈ r, parse t = none) →
+      loadtxtNum2 parse round (printTable rows) = .error .ValueError) := by
+  refine ⟨fun hp => loadtxtNum2_rect parse round val rows m h hp, fun hbad => ?_⟩
+  rw [loadtxtNum2, tokenize_printTable rows h.1, convertRows_bad parse round rows hbad]
+
+/-- a ragged table is refused also under `ndmin=2` -/
+theorem C19_table_ragged_ndmin2 (r0 : List Token) (rest : List (List Token))
+    (h : ∀ r ∈ r0 :: rest, GoodRow r) (hne : ∃ r ∈ rest, r.length ≠ r0.length) :
+    loadtxtStr2 (printTable (r0 :: rest)) = .error .ValueError := by
+  rw [loadtxtStr2, tokenize_printTable _ h, shapeTable2_ragged r0 rest hne]
+
+/-- what `load_data` / `load_data_DM` append for the two bases files, as written: the per-sample table `B` as the
+2-D array `(N, n)` whatever `N, n ≥ 1` are; the list of bases `U` (`bases_path`, `ndmin=1`) as `basesAsWritten`:
+1-D list of words for a one-column (or one-row) file, 2-D otherwise. -/
+def basesItems {ν : Type} (B U : Option (List (List Token))) (mU : ℕ) : List (Item ν) :=
+  (B.map (fun T => Item.str (.mat T))).toList ++ (U.map (fun T => Item.str (basesAsWritten T mU))).toList
+
+theorem loadBases_written {ν : Type} (B U : Option (List (List Token))) (mB mU : ℕ)
+    (hB : ∀ T ∈ B, RectTable T mB) (hU : ∀ T ∈ U, RectTable T mU) :
+    loadBases (ν := ν) (B.map printTable) (U.map printTable) = .ok (basesItems B U mU) := by
+  have h2 : optStr2 (ν := ν) (B.map printTable) = .ok (B.map (fun X => Item.str (.mat X))).toList := by
+    cases B with
+    | none => rfl
+    | some X => simp [optStr2, loadtxtStr2_rect X mB (hB X rfl)]
+  have h1 : optStr (ν := ν) true (U.map printTable)
+      = .ok (U.map (fun X => Item.str (basesAsWritten X mU))).toList := by
+    cases U with
+    | none => rfl
+    | some X => simp [optStr, loadtxtStr_true_rect X mU (hU X rfl)]
+  simp only [loadBases, h2, h1, basesItems]
+
+/-- **C19.8b** `load_data` on printed files, ANY number of samples `N ≥ 0` and sites `n ≥ 1` (F16: no `BigTable`
+hypothesis on the samples and per-sample bases; the target `P` is a `2^n × 2` table, hence `BigTable`): the outputs
+are, in this order, the samples as the `(N, n)` array of the rounded values, then — only if given — the target
+as the `2 × N` real-pair layout (row 0 = first column, row 1 = second column of the psi file), the per-sample
+bases as the `(N, n)` array, the list of bases; nothing else. -/
 theorem C19_load_data_roundtrip {ν : Type} [Inhabited ν] (parse : Token → Option ν) (round : ν → ν)
-    (val : Token → ν) (S : List (List Token)) (P B U : Option (List (List Token)))
-    (hS : BigTable S) (hP : ∀ T ∈ P, BigTable T) (hB : ∀ T ∈ B, BigTable T) (hU : ∀ T ∈ U, BigTable T)
+    (val : Token → ν) (S : List (List Token)) (P B U : Option (List (List Token))) (n mU : ℕ)
+    (hS : RectTable S n) (hP : ∀ T ∈ P, BigTable T) (hB : ∀ T ∈ B, RectTable T n) (hU : ∀ T ∈ U, RectTable T mU)
     (hpS : ∀ r ∈ S, ∀ t ∈ r, parse t = some (val t))
     (hpP : ∀ T ∈ P, ∀ r ∈ T, ∀ t ∈ r, parse t = some (val t)) :
     loadData parse round (printTable S) (P.map printTable) (B.map printTable) (U.map printTable)
       = .ok (Item.num (.mat (S.map (fun r => r.map (fun t => round (val t)))))
           :: (P.map (fun T => Item.cplx (.vec (T.map (fun r => round (val (r.getD 0 [])))))
                                          (.vec (T.map (fun r => round (val (r.getD 1 []))))))).toList
-          ++ ((B.map (fun T => Item.str (.mat T))).toList ++ (U.map (fun T => Item.str (.mat T))).toList)) := by
-  have hstr : ∀ (b : Bool) (T : Option (List (List Token))), (∀ X ∈ T, BigTable X) →
-      optStr (ν := ν) b (T.map printTable) = .ok (T.map (fun X => Item.str (.mat X))).toList := by
-    intro b T hT
-    cases T with
-    | none => rfl
-    | some X =>
-      obtain ⟨hg, hN, m, hm, hrect⟩ := hT X rfl
-      simp [optStr, C19_table_roundtrip b X m hg hN hm hrect]
+          ++ basesItems B U mU) := by
   have hpsi : optPsi parse round (P.map printTable)
       = .ok (P.map (fun T => Item.cplx (.vec (T.map (fun r => round (val (r.getD 0 [])))))
                                          (.vec (T.map (fun r => round (val (r.getD 1 []))))))).toList := by
@@ -336,14 +455,38 @@ theorem C19_load_data_roundtrip {ν : Type} [Inhabited ν] (parse : Token → Op
       · refine List.map_congr_left (fun r hr => ?_)
         have : 1 < r.length := by rw [hrect r hr]; omega
         simp [List.getD_eq_getElem?_getD, this]
-  simp only [loadData, loadtxtNum_big parse round val S hS hpS, hpsi, loadBases, hstr false B hB, hstr true U hU]
+  simp only [loadData, loadtxtNum2_rect parse round val S n hS hpS, hpsi, loadBases_written B U n mU hB hU]
 
-/-- **C19.8c** `load_data_DM`: exactly one of the two matrix parts → `ValueError`; both → the pair
-`(real, imag)` right after the samples; neither → only the samples (bases as for `load_data`). -/
+/-- **C19.8b'** the shape clause made explicit: for `N ≥ 1` samples of `n` sites the first output of `load_data`
+has shape `(N, n)` and the per-sample bases (when given) have shape `(N, n)` — in particular for a single sample
+and for a single site. (Before F16: shape `(n,)` resp. `(N,)`.) -/
+theorem C19_load_data_shape {ν : Type} [Inhabited ν] (parse : Token → Option ν) (round : ν → ν)
+    (val : Token → ν) (S B : List (List Token)) (n : ℕ) (hS : RectTable S n) (hB : RectTable B n) (hN : S ≠ [])
+    (hNB : B.length = S.length) (hpS : ∀ r ∈ S, ∀ t ∈ r, parse t = some (val t)) :
+    ∃ a b, loadData parse round (printTable S) none (some (printTable B)) none = .ok [Item.num a, Item.str b] ∧
+      a.shape = [S.length, n] ∧ b.shape = [S.length, n] := by
+  have h := C19_load_data_roundtrip parse round val S none (some B) none n 0 hS (by simp)
+    (by intro T hT; cases hT; exact hB) (by simp) hpS (by simp)
+  refine ⟨_, _, by simpa [basesItems] using h, ?_, ?_⟩
+  · cases S with
+    | nil => exact absurd rfl hN
+    | cons r rs => simp [Arr.shape, hS.2 r (by simp)]
+  · cases B with
+    | nil => cases S with
+      | nil => exact absurd rfl hN
+      | cons _ _ => simp at hNB
+    | cons r rs =>
+      have := hB.2 r (by simp)
+      simp only [Arr.shape, List.headD_cons, this]
+      rw [hNB]
+
+/-- **C19.8c** `load_data_DM` (same generality for samples and bases; the matrix parts are `2^n × 2^n`, hence
+`BigTable`): exactly one of the two matrix parts → `ValueError`; both → the pair `(real, imag)` right after the
+samples; neither → only the samples (bases as for `load_data`). -/
 theorem C19_load_data_DM_roundtrip {ν : Type} (parse : Token → Option ν) (round : ν → ν)
-    (val : Token → ν) (S : List (List Token)) (Re Im B U : Option (List (List Token)))
-    (hS : BigTable S) (hRe : ∀ T ∈ Re, BigTable T) (hIm : ∀ T ∈ Im, BigTable T)
-    (hB : ∀ T ∈ B, BigTable T) (hU : ∀ T ∈ U, BigTable T)
+    (val : Token → ν) (S : List (List Token)) (Re Im B U : Option (List (List Token))) (n mU : ℕ)
+    (hS : RectTable S n) (hRe : ∀ T ∈ Re, BigTable T) (hIm : ∀ T ∈ Im, BigTable T)
+    (hB : ∀ T ∈ B, RectTable T n) (hU : ∀ T ∈ U, RectTable T mU)
     (hpS : ∀ r ∈ S, ∀ t ∈ r, parse t = some (val t))
     (hpRe : ∀ T ∈ Re, ∀ r ∈ T, ∀ t ∈ r, parse t = some (val t))
     (hpIm : ∀ T ∈ Im, ∀ r ∈ T, ∀ t ∈ r, parse t = some (val t)) :
@@ -351,25 +494,16 @@ theorem C19_load_data_DM_roundtrip {ν : Type} (parse : Token → Option ν) (ro
         (U.map printTable)
       = match Re, Im with
         | none, none =>
-          .ok (Item.num (.mat (S.map (fun r => r.map (fun t => round (val t)))))
-            :: ((B.map (fun T => Item.str (.mat T))).toList ++ (U.map (fun T => Item.str (.mat T))).toList))
+          .ok (Item.num (.mat (S.map (fun r => r.map (fun t => round (val t))))) :: basesItems B U mU)
         | some R, some I =>
           if (Arr.mat (R.map (fun r => r.map (fun t => round (val t))))).shape
               == (Arr.mat (I.map (fun r => r.map (fun t => round (val t))))).shape then
             .ok (Item.num (.mat (S.map (fun r => r.map (fun t => round (val t)))))
               :: Item.cplx (.mat (R.map (fun r => r.map (fun t => round (val t)))))
                            (.mat (I.map (fun r => r.map (fun t => round (val t)))))
-              :: ((B.map (fun T => Item.str (.mat T))).toList ++ (U.map (fun T => Item.str (.mat T))).toList))
+              :: basesItems B U mU)
           else .error .RuntimeError
         | _, _ => .error .ValueError := by
-  have hstr : ∀ (b : Bool) (T : Option (List (List Token))), (∀ X ∈ T, BigTable X) →
-      optStr (ν := ν) b (T.map printTable) = .ok (T.map (fun X => Item.str (.mat X))).toList := by
-    intro b T hT
-    cases T with
-    | none => rfl
-    | some X =>
-      obtain ⟨hg, hN, m, hm, hrect⟩ := hT X rfl
-      simp [optStr, C19_table_roundtrip b X m hg hN hm hrect]
   have hnum : ∀ (T : Option (List (List Token))), (∀ X ∈ T, BigTable X) →
       (∀ X ∈ T, ∀ r ∈ X, ∀ t ∈ r, parse t = some (val t)) →
       optNum parse round (T.map printTable)
@@ -378,8 +512,8 @@ theorem C19_load_data_DM_roundtrip {ν : Type} (parse : Token → Option ν) (ro
     cases T with
     | none => rfl
     | some X => simp [optNum, loadtxtNum_big parse round val X (hT X rfl) (hp X rfl)]
-  simp only [loadDataDM, loadtxtNum_big parse round val S hS hpS, hnum Re hRe hpRe, hnum Im hIm hpIm,
-    loadBases, hstr false B hB, hstr true U hU]
+  simp only [loadDataDM, loadtxtNum2_rect parse round val S n hS hpS, hnum Re hRe hpRe, hnum Im hIm hpIm,
+    loadBases_written B U n mU hB hU]
   cases Re with
   | none => cases Im <;> simp [combineDM]
   | some R =>
@@ -437,6 +571,25 @@ theorem C19_refbasis_errors {τ : Type} (samples : Arr τ) :
   refine ⟨fun _ => rfl, fun _ => rfl, fun rows bases hne => ?_⟩
   simp [extractRefbasis, hne]
 
+/-- **C19.9c** (F16) end to end: files of `N ≥ 1` samples on `n ≥ 1` sites and their `N` basis rows, loaded with
+`load_data` and handed to `extract_refbasis_samples`, give — for EVERY `N` and `n`, in particular a single sample or
+a single site — the loaded sample rows whose basis row is all `"Z"`, in order; never an `IndexError`.
+(Before F16 the one-row and one-column cases lost their 2-D shape and ended in `C19_refbasis_errors`.) -/
+theorem C19_load_then_refbasis {ν : Type} [Inhabited ν] (parse : Token → Option ν) (round : ν → ν)
+    (val : Token → ν) (S B : List (List Token)) (n : ℕ) (hS : RectTable S n) (hB : RectTable B n)
+    (hNB : S.length = B.length) (hpS : ∀ r ∈ S, ∀ t ∈ r, parse t = some (val t)) :
+    ∃ rows, rows = S.map (fun r => r.map (fun t => round (val t))) ∧
+      loadData parse round (printTable S) none (some (printTable B)) none
+        = .ok [Item.num (.mat rows), Item.str (.mat B)] ∧
+      ∃ hl : rows.length = B.length,
+        extractRefbasis (.mat rows) (.mat B)
+          = .ok (.mat (((List.finRange rows.length).filter
+              (fun i => decide (∀ t ∈ B[i.val]'(hl ▸ i.isLt), t = ['Z']))).map (fun i => rows[i.val]))) := by
+  have h := C19_load_data_roundtrip parse round val S none (some B) none n 0 hS (by simp)
+    (by intro T hT; cases hT; exact hB) (by simp) hpS (by simp)
+  have hlen : (S.map (fun r => r.map (fun t => round (val t)))).length = B.length := by simpa using hNB
+  exact ⟨_, rfl, by simpa [basesItems] using h, hlen, C19_refbasis _ B hlen⟩
+
 /-! ## Non-vacuity: concrete instances -/
 
 /-- `n = 3`: the generated space is `itertools.product([0,1], repeat=3)` in order. -/
@@ -467,6 +620,22 @@ example : tokenize ['#', 'h', '\n', '1', ' ', '0', ' ', '#', 'c', '\n', '\n', '\
 example : extractRefbasis (.mat [[1, 0], [0, 1], [1, 1], [0, 0]])
     (.mat [[['Z'], ['Z']], [['X'], ['Z']], [['Z'], ['Z']], [['Z', 'Z'], ['Z']]])
     = .ok (.mat [[1, 0], [1, 1]]) := by decide
+
+/-- F16: a single sample of three sites and three samples of a single site keep their 2-D shapes. -/
+example : loadData (ν := Nat) (fun t => if t = ['1'] then some 1 else if t = ['0'] then some 0 else none) id
+    ['1', ' ', '0', ' ', '1', '\n'] none (some ['Z', ' ', 'Z', ' ', 'Z', '\n']) none
+    = .ok [Item.num (.mat [[1, 0, 1]]), Item.str (.mat [[['Z'], ['Z'], ['Z']]])] := by decide
+example : loadData (ν := Nat) (fun t => if t = ['1'] then some 1 else if t = ['0'] then some 0 else none) id
+    ['1', '\n', '0', '\n', '1', '\n'] none (some ['Z', '\n', 'X', '\n', 'Z', '\n']) none
+    = .ok [Item.num (.mat [[1], [0], [1]]), Item.str (.mat [[['Z']], [['X']], [['Z']]])] := by decide
+
+/-- int64 outcome classes: `subspace_vector(-1, 3)` is all ones (two's complement), `subspace_vector(5, 65)` is the
+65-entry expansion of 5, `2^63` is refused, a negative size gives the empty vector / a refusal. -/
+example : subspaceVectorZ (-1) (some 3) 9 = .ok [true, true, true] := by decide
+example : subspaceVectorZ (-3) (some 4) 9 = .ok [true, true, false, true] := by decide
+example : subspaceVectorZ (2 ^ 63) (some 4) 9 = .overflowError := by decide
+example : subspaceVectorZ 5 (some (-1)) 9 = .ok [] := by decide
+example : spaceGuardZ (some (-1)) 3 = .error .TypeError := by decide
 
 end C19
 end QV.Props
